@@ -235,6 +235,9 @@ func (c *VCtx) freshRef(st *State, prefix string) *Term {
 	a := c.allocHeap(st)
 	c.fact(And(Not(Eq(r, Null)), Not(Select(a, r))))
 	c.setHeap(st, "G:alloc", Store(a, r, True))
+	if c.top != nil {
+		c.freshGhost(st, r)
+	}
 	return r
 }
 
@@ -264,6 +267,11 @@ func (c *VCtx) execInstr(fr *Frame, st *State, in ssa.Instruction, incoming map[
 			r.GT = x.Type()
 			c.zeroInit(st, r, el)
 			fr.env[x] = r
+			if n, ok := el.(*types.Named); ok && n.Obj().Pkg() != nil && n.Obj().Pkg().Path() == "sync/atomic" {
+				// a local variable of atomic type: private to this call until the function ends
+				c.localAtomics[r.S] = true
+				c.usesAtomics = true
+			}
 		} else if at, ok := el.Underlying().(*types.Array); ok {
 			r := c.freshRef(st, "arr")
 			es := sortOf(at.Elem())
@@ -279,6 +287,9 @@ func (c *VCtx) execInstr(fr *Frame, st *State, in ssa.Instruction, incoming map[
 			h := c.heap(st, l.Heap, ArrSort(SRef, es))
 			c.setHeap(st, l.Heap, Store(h, r, c.asTerm(c.zero(el))))
 			fr.env[x] = l
+		}
+		if fr.contract != nil && x.Comment != "" {
+			c.runGhost(fr, st, fr.contract, "init "+x.Comment, nil)
 		}
 	case *ssa.BinOp:
 		fr.env[x] = c.binop(fr, st, x)
@@ -368,6 +379,13 @@ func (c *VCtx) execInstr(fr *Frame, st *State, in ssa.Instruction, incoming map[
 			fv.Binds = append(fv.Binds, fr.eval(b))
 		}
 		fr.env[x] = fv
+		if ct := c.eng.ContractOf(fv.Fn); ct != nil && len(ct.ClosureInv) > 0 {
+			// facts about the captured variables that must hold whenever the closure runs: proved at creation
+			sc := c.contractScope(fv.Fn, ct, fv, nil, st, st, nil)
+			for i, r := range ct.ClosureInv {
+				c.prove(fmt.Sprintf("closure.%s.%s", FuncKey(fv.Fn), clauseLabel(r, i)), "captured-variable invariant of "+FuncKey(fv.Fn)+" holds when the closure is created: "+r.Src, st.pc, c.translateBool(sc, r.E), nil)
+			}
+		}
 	case *ssa.MakeMap:
 		fr.env[x] = c.makeMap(st, x.Type())
 	case *ssa.MakeSlice:
